@@ -228,3 +228,18 @@ def kind_of_scalar(v):
     if isinstance(v, tuple):
         return ('tuple', [kind_of_scalar(x) for x in v], type(v) if isinstance(v, NT) else None)
     raise TypeError(f'no element kind for {v!r}')
+
+
+class _Inf:
+    """np.inf (only compared for equality in the verified code)"""
+    def __repr__(self):
+        return 'inf'
+
+    def __deepcopy__(self, memo):
+        return self
+
+    def __copy__(self):
+        return self
+
+
+INF = _Inf()
